@@ -4,6 +4,7 @@ import FpgoVerif.Proofs.C02Float
 import FpgoVerif.Proofs.C02Misc
 import FpgoVerif.Proofs.C02ToFloat
 import FpgoVerif.Proofs.C02Comp
+import FpgoVerif.Proofs.C02Str
 /-! Property theorems for C02 — "Maybe numeric conversions are value-preserving or fail; never silently wrap".
 
     All theorems are about `convGo` = the evaluator `conv` applied to `Gen.convTable`, the table the
@@ -131,6 +132,29 @@ theorem C02_int_to_float (tgt : Ty) (f : Fmt) (hf : (tgt = .float32 ∧ f = f32)
 example : convGo .float32 (.ty .int32) (.i 16777217) = ⟨.f32 (.fin false 16777216 0), .ok⟩ := by decide +kernel
 example : convGo .float64 (.ty .int64) (.i 9223372036854775807) = ⟨.f64 (.fin false 9223372036854775808 0), .ok⟩ := by
   decide +kernel
+
+/-! ### string → integer -/
+
+/-- integer targets whose string clause is `strconv.ParseInt/ParseUint/Atoi` + cast (ToUintptr adds a guard) -/
+def strDirectTgts : List Ty := [.int, .int8, .int16, .int32, .int64, .uint, .uint8, .uint16, .uint32, .uint64]
+
+/-- Closing theorem: the string clause of every such method parses with the signedness of the target and a bitSize
+    whose range lies inside the target's range and contains the must-succeed range. -/
+theorem C02_table_string_to_int :
+    strDirectTgts.all (fun tgt => strIntBodyOK tgt (lookup Gen.convTable tgt (.ty .string))) = true := by decide +kernel
+
+/-- Clauses (a), (b), (c) for EVERY string `w` (numeric or not), with `strconv` as modelled by `goStrconv`:
+    a nil error means `w` is an integer numeral and the result is its value; a canonical numeral that fits converts;
+    "-1" → unsigned, "300" → int8, "1.5", "abc" fail. -/
+theorem C02_string_to_int (tgt : Ty) (ht : tgt ∈ strDirectTgts) (w : String) :
+    specOK tgt (.ty .string) (.s w) (convGo tgt (.ty .string) (.s w)) = true := by
+  have hall := C02_table_string_to_int
+  rw [List.all_eq_true] at hall
+  have := strIntBodyOK_sound Gen.convTable 5 tgt w (hall tgt ht)
+  simpa [specOK, convGo, convFuel] using this
+
+example : convGo .uint8 (.ty .string) (.s "200") = ⟨.i 200, .ok⟩ := by decide +kernel
+example : (convGo .uint8 (.ty .string) (.s "-1")).err = .other := by decide +kernel
 
 /-! ### absent values, unsupported kinds, bool sources, ToBool -/
 
